@@ -11,7 +11,7 @@ RULE = ('event sequences from boot over {ACCEPT/REFUSE of any pending attempt at
         'connection, peer close/reset, TICK with forked same-instant orders, STOP, START}; executed against the real '
         'fsm/protocol/factory on the simulated reactor; a case = one executed sequence, distinct = distinct abstract world '
         'fingerprints reached (FSM state, timers with remaining time, connector/transport states, buffers, capabilities); '
-        'after every new state 300 s of silent-peer time are appended and leaked connections looked for')
+        'after every new state 300 s of silent-peer time are appended and leaked connections looked for; close completion at the same instant and as a separate later event; searches from boot and from 6 prefix sessions (pending boot timer, stop / drop with the close still pending, restart on top of it)')
 ASSUMPTIONS = ['simulated Twisted reactor/connector/transport (verif/shims) reproduces Twisted semantics listed in DESIGN.md 2.1',
                'REST requests are atomic events between reactor callbacks']
 SHARD_TIMEOUT = {'quick': 240, 'thorough': 1500}
